@@ -137,4 +137,69 @@ theorem fresh_spec {s s' : State} {f : FactoryRef} {id : Ident} (h : fresh s f =
       · cases h
     · cases h
 
+/-! ### the pass-through provider, by cases on whether the node belongs to its scope -/
+
+theorem pass_cases (sc : Nat) (n : Node) :
+    (∃ v, n = some (.bnString sc v)) ∨ (∀ v, n ≠ some (.bnString sc v)) := by
+  cases n with
+  | none => right; intro v h; cases h
+  | some id =>
+    cases id with
+    | bn f v => right; intro v h; cases h
+    | bnDefault v => right; intro v h; cases h
+    | bnString f v =>
+      by_cases hf : f = sc
+      · left; exact ⟨v, by rw [hf]⟩
+      · right; intro w h; simp at h; exact hf h.1
+
+theorem getLabel_pass_own (U : Nat → Bytes) (s : State) (sc : Nat) (fb : ProvRef) (v : Bytes) :
+    getLabel U s (.pass sc fb) (some (.bnString sc v)) = (s, .label v) := by simp [getLabel]
+
+theorem getLabel_pass_other (U : Nat → Bytes) (s : State) (sc : Nat) (fb : ProvRef) (n : Node)
+    (h : ∀ v, n ≠ some (.bnString sc v)) : getLabel U s (.pass sc fb) n = getLabel U s fb n := by
+  cases n with
+  | none => simp [getLabel]
+  | some id =>
+    cases id with
+    | bn f v => simp [getLabel]
+    | bnDefault v => simp [getLabel]
+    | bnString f v =>
+      simp only [getLabel]
+      rw [if_neg]
+      intro hf; subst hf; exact h v rfl
+
+theorem peek_pass_own (U : Nat → Bytes) (s : State) (sc : Nat) (fb : ProvRef) (v : Bytes) :
+    peek U s (.pass sc fb) (some (.bnString sc v)) = some (.label v) := by simp [peek]
+
+theorem peek_pass_other (U : Nat → Bytes) (s : State) (sc : Nat) (fb : ProvRef) (n : Node)
+    (h : ∀ v, n ≠ some (.bnString sc v)) : peek U s (.pass sc fb) n = peek U s fb n := by
+  cases n with
+  | none => simp [peek]
+  | some id =>
+    cases id with
+    | bn f v => simp [peek]
+    | bnDefault v => simp [peek]
+    | bnString f v =>
+      simp only [peek]
+      rw [if_neg]
+      intro hf; subst hf; exact h v rfl
+
+theorem getLabel_mappers (U : Nat → Bytes) (s : State) (p : ProvRef) (n : Node) :
+    (getLabel U s p n).1.mappers = s.mappers := by
+  induction p with
+  | int64 i =>
+    simp only [getLabel]
+    split
+    · rfl
+    · split <;> rfl
+  | uuid i =>
+    simp only [getLabel]
+    split
+    · rfl
+    · split <;> rfl
+  | pass sc fb ih =>
+    rcases pass_cases sc n with ⟨v, rfl⟩ | hno
+    · rw [getLabel_pass_own]
+    · rw [getLabel_pass_other U s sc fb n hno]; exact ih
+
 end RdfModel.Proofs.C14
